@@ -72,7 +72,7 @@ REQUIRED = {
     "C11": ["usage_report_ies", "refused_removals", "concurrent_operations", "report_requests_given_up_after_all_retries(steps)"],
     "C12": ["termination_reports", "immediate_reports", "refused_removals"],
     "C13": ["gtpu_packets", "buffer_notifications", "release_transitions_with_packets", "refused_release_transitions_with_packets"],
-    "C14": ["writer_datagrams"],
+    "C14": ["writer_datagrams", "writer_datagrams_through_the_buffering_listener"],
     "C15": ["ticks", "netlink_batches", "removals_refused_by_the_kernel", "real_ticks_observed"],
     "C17": ["events_injected", "report_requests_seen", "accounted_reports"],
     "C18": ["requests", "report_requests_seen"],
